@@ -1033,7 +1033,9 @@ func (r *transformingReader) Read(data []byte) (n int, err error) {
 			r.err = err
 			verifPoint("tr:reportError")
 			r.rw.reportError(err)
-			return 0, io.EOF
+			// Not io.EOF: to the handler, that would be the regular end of the body,
+			// i.e. a complete (for protocols without envelopes: empty) message.
+			return 0, err
 		}
 	}
 }
